@@ -29,7 +29,8 @@ RULE = ('tables 1..5 x 1..5, non-square and asymmetric with probability > 0.8 (v
         'vectors), layout recipes giving CSR and CSC start layouts with sorted and unsorted indices, x axis x inplace x '
         '{transform with a function from a finite family: element-wise (x+1, 2x, -x, zero the small ones, zero all), vector-wise '
         '(v/v.sum(), reversed, cumsum, argsort, times the number of values, minus the minimum, a broadcast scalar), using the id, '
-        'using the metadata, a wrong-length result; rankdata with the five tie methods; norm; pa; an element-wise function '
+        'using the metadata, a wrong-length result; rankdata with the five tie methods; norm; pa (incl. negative values, magnitudes down to 5e-324 and norm-then-pa on vectors '
+        'as uneven as 1 : 3e11, travelling as opaque non-zero codes); an element-wise function '
         'along both axes; _normalize_table (-r/-p/none/both)}; the arrays handed to the kernel and every call are recorded and '
         'replayed through the kernel-level model, and for in-place calls the table\'s own arrays through the representation-'
         'level model; thorough adds every 2x3 matrix over {0,1,-2} x both start formats x both axes x three functions; '
@@ -49,6 +50,7 @@ ASSUMPTIONS = ['functions are deterministic and return finite values (no NaN), -
 
 AX = {'observation': 0, 'sample': 1}
 RANK_METHODS = ['average', 'min', 'max', 'dense', 'ordinal']
+TINY = [1e-9, -1e-9, 1.5e-9, 1e-12, -3e-12, 5e-324, -5e-324, 2.5e-300, 1e-8, 9e-9]
 
 
 def _md_num(m, d=3.0):
@@ -122,11 +124,27 @@ def _coder(c, bits=True):
         vals += run['before']['data'] + run.get('after', [])
     if st.get('pre'):
         vals += st['pre']['data']
+    if st.get('base'):
+        vals += [v for row in st['base']['mat'] for v in row]
     return BookCoder(T.spec_universe(c['spec']), vals)
 
 
 def _uses_bits(c):
-    return c['kind'] not in ('norm', 'normalize')
+    """code book (opaque values) unless the model has to divide"""
+    if c['kind'] == 'norm':
+        return False
+    if c['kind'] == 'normalize':
+        return not c['rel']
+    return True
+
+
+def _content(c):
+    """the content of the table the operation under test starts from: the spec's, or, when the case
+    has a preparatory step (norm before pa), the snapshot taken right after that step"""
+    st = _STASH.get(jhash(c)) or {}
+    if st.get('base') is not None:
+        return st['base']
+    return T.norm_snap(T.spec_content(c['spec']))
 
 
 # ---------------------------------------------------------------- implementation
@@ -240,6 +258,11 @@ def _run_impl(c):
         _STASH[jhash(c)] = runs
         return obs
     t = T.build(c['spec'])
+    base = None
+    if c.get('prenorm'):
+        # preparatory step (not under test here): relative abundances, then the operation
+        t.norm(axis=c['prenorm'], inplace=True)
+        base = _snap(t)
     pre = _arrays(t.matrix_data)
     with Spy() as sp:
         try:
@@ -263,7 +286,7 @@ def _run_impl(c):
         if c.get('inplace') and not failed and c['kind'] in ('transform', 'rank', 'pa'):
             obs['repr'] = {'handed': {k: run['before'][k] for k in ('fmt', 'shape', 'indptr', 'indices', 'data')},
                            'installed': post}
-    _STASH[jhash(c)] = {'run': run, 'pre': pre}
+    _STASH[jhash(c)] = {'run': run, 'pre': pre, 'base': base}
     return obs
 
 
@@ -295,7 +318,7 @@ def encode(c):
     if st.get('crash'):
         return [3, 0, [0], [], [], [], [], []]
     cd = _coder(c, _uses_bits(c))
-    tb = cd.table(T.spec_content(c['spec']))
+    tb = cd.table(_content(c))
     k = c['kind']
     if k == 'axis_indep':
         subs = []
@@ -358,7 +381,7 @@ def decode(tree, c):
     if k == 'axis_indep':
         o, s = tree
         return {'observation': _result(o[1], cd)[1], 'sample': _result(s[1], cd)[1], 'layout_ok': bool(o[3]) and bool(s[3])}
-    sc = T.norm_snap(T.spec_content(c['spec']))
+    sc = _content(c)
     if k == 'norm':
         m, lay_ok = tree
         snap = dict(sc, mat=_unq(m, c['spec']))
@@ -411,6 +434,11 @@ def _mat(spec):
     return np.array(spec['mat'], dtype=float).reshape(len(spec['oids']), len(spec['sids']))
 
 
+def _cmat(c):
+    b = _content(c)
+    return np.array(b['mat'], dtype=float).reshape(len(b['oids']), len(b['sids']))
+
+
 def _rank(vals, method):
     """plain reference ranking (not scipy): ranks 1..k of the values, ties by method"""
     k = len(vals)
@@ -429,9 +457,9 @@ def _rank(vals, method):
     return out
 
 
-def _want_calls(spec, axis):
-    M = _mat(spec)
-    sc = T.spec_content(spec)
+def _want_calls(c, axis):
+    M = _cmat(c)
+    sc = _content(c)
     ids, md = (sc['oids'], sc['omd']) if axis == 'observation' else (sc['sids'], sc['smd'])
     vecs = [M[i, :] for i in range(M.shape[0])] if axis == 'observation' else [M[:, j] for j in range(M.shape[1])]
     return [[sorted(v[v != 0].tolist()), i, None if md is None else md[k]] for k, (v, i) in enumerate(zip(vecs, ids))]
@@ -439,13 +467,13 @@ def _want_calls(spec, axis):
 
 def _check_calls(c, obs, axis, fails):
     got = canon([[sorted(call[0]), call[1], call[2]] for call in obs.get('calls') or []])
-    want = canon(_want_calls(c['spec'], axis))
+    want = canon(_want_calls(c, axis))
     if got != want:
         fails.append('the function was called with %s; the non-zero values / id / metadata per %s are %s' % (got, axis, want))
 
 
 def _untouched(c, r, fails, what='result'):
-    sc = canon(T.norm_snap(T.spec_content(c['spec'])))
+    sc = canon(_content(c))
     for key in ('oids', 'sids', 'omd', 'smd', 'type'):
         if r[key] != sc[key]:
             fails.append('%s: %s changed' % (what, key))
@@ -456,8 +484,8 @@ def oracle(c, obs):
         return ['harness/implementation crashed: %s' % obs['crash']]
     fails = []
     spec, k = c['spec'], c['kind']
-    M = _mat(spec)
-    sc = canon(T.norm_snap(T.spec_content(spec)))
+    M = _cmat(c)
+    sc = canon(_content(c))
     if k == 'axis_indep':
         ref = np.where(M != 0, ELEMENTWISE[c['fn']](M), 0.0)
         for ax in ('observation', 'sample'):
@@ -571,14 +599,23 @@ def gen_case(rng, kind=None, spec=None):
         if rng.random() < 0.5:
             spec['layout'] = [rng.choice(['csc', 'csc', 'dense', 'coo'])] + spec['layout'][1:] + [rng.choice(['colaccess', 'copy', 'nnz'])]
     c = {'kind': kind, 'spec': spec, 'axis': rng.choice(['observation', 'sample']), 'inplace': kind == 'normalize' or rng.random() < 0.5}
+    if kind == 'normalize':
+        c['rel'], c['pa'] = rng.choice([(True, False), (True, False), (False, True), (False, True), (False, False), (True, True)])
+    if kind == 'pa' or (kind == 'normalize' and not c['rel']):
+        # presence means "non-zero", however small: tiny magnitudes, denormals, negative tiny values,
+        # and relative abundances of very uneven vectors (norm, then pa)
+        r = rng.random()
+        if r < 0.35:
+            spec['mat'] = [[rng.choice(TINY) if v != 0 and rng.random() < 0.7 else v for v in row] for row in spec['mat']]
+        elif r < 0.6:
+            spec['mat'] = [[abs(v) * rng.choice([1.0, 1.0, 6.5e8, 3e11]) for v in row] for row in spec['mat']]
+            c['prenorm'] = rng.choice(['observation', 'sample'])
     if kind == 'transform':
         c['fn'] = rng.choice(sorted(FUNCS) + ['plus1', 'plus1', 'relative', 'reverse'])
     elif kind == 'rank':
         c['method'] = rng.choice(RANK_METHODS)
     elif kind == 'axis_indep':
         c['fn'] = rng.choice(sorted(ELEMENTWISE))
-    elif kind == 'normalize':
-        c['rel'], c['pa'] = rng.choice([(True, False), (True, False), (False, True), (False, True), (False, False), (True, True)])
     return c
 
 
@@ -617,6 +654,10 @@ def classify(c):
         tags.append('repr:' + T.layout_info(T.build(c['spec'])))
     except Exception:
         tags.append('repr:unbuildable')
+    if c.get('prenorm'):
+        tags.append('norm-then-op')
+    if M.size and ((M != 0) & (np.abs(M) <= 1e-8)).any():
+        tags.append('tiny-magnitudes')
     for key in ('fn', 'method'):
         if key in c:
             tags.append('%s:%s' % (key, c[key]))
